@@ -17,6 +17,14 @@ FIRST_LOOK = {  # recorded when the seed was first run, before any rule was touc
  "C35-4": "caught", "C35-5": "caught", "C35-6": "caught",
  "C07-4": "missed by C07, caught by C06", "C07-5": "caught", "C07-6": "missed by C07, caught by C06/C08",
  "C10-4": "missed", "C10-5": "missed", "C10-6": "missed",
+ "C34-4": "missed", "C34-5": "missed", "C34-6": "missed",
+ "C18-4": "missed", "C18-5": "missed", "C18-6": "unknown-shape alarm only",
+ # round 3
+ "C27-7": "caught", "C27-8": "missed", "C27-9": "caught",
+ "C04-7": "missed", "C04-8": "missed", "C04-9": "caught",
+ "C05-7": "caught", "C05-8": "floor alarm only", "C05-9": "floor alarm only",
+ "C06-7": "caught", "C06-8": "missed", "C06-9": "caught",
+ "C28-7": "caught", "C28-8": "missed", "C28-9": "missed",
 }
 def key(d):
     m = re.match(r".*/C(\d+)-(\d+)$", d); return (int(m.group(1)), int(m.group(2)))
@@ -43,11 +51,12 @@ for d in sorted(glob.glob("/verif/seeded/C*-*"), key=key):
                         mm = re.search(r"rule=(\S+)", rep)
                         if mm and mm.group(1) not in rules: rules.append(mm.group(1))
                     rule = ", ".join(rules[:3])
-    rnd = "1" if int(name.split("-")[1]) <= 3 else "2"
+    nn = int(name.split("-")[1])
+    rnd = "1" if nn <= 3 else ("2" if nn <= 6 else "3")
     fl = FIRST_LOOK.get(name, "" if rnd == "1" else "not recorded")
     if det: caught += 1
     else: missed += 1
     rows.append(f"| {name} | {rnd} | {first} | {', '.join(det) if det else '**missed**'} | {rule} | {fl} |")
 print(f"{caught + missed} seeds: {caught} caught, {missed} missed\n")
-print("| seed | round | change | caught by (now) | rule | first look (round 2) |\n|---|---|---|---|---|---|")
+print("| seed | round | change | caught by (now) | rule | first look (rounds 2, 3) |\n|---|---|---|---|---|---|")
 print("\n".join(rows))
